@@ -100,16 +100,40 @@ def itv_alias_tasks(units, tier):
             for mode in ("to_is_x", "to_is_y", "all_same"): T.append(mk(op, 2, mode))
     return T
 
+import C03 as c03
+def box_value_tasks(units, tier):
+    """boxes are values: copy construction / assignment / swap give independent objects, and the binary box operations
+       accept the receiver itself as their argument (the C03 soundness clauses with y aliased to x)"""
+    T = []
+    for (tt, pol) in ([("s8", "rat")] if tier == "quick" else [("s8", "nat"), ("s8", "rat")]):
+        u = c03.box_unit(tt, pol, prop="C13"); units.append(u)
+        for d in ((2,) if tier == "quick" else (0, 1, 2)):
+            bound = {"unwind": d + 2, "note": "space dimension %d; interval contents and status flags arbitrary; libstdc++ copy loops unwound with unwinding assertions" % d}
+            kw = dict(bounded=bound, timeout=1800, object_bits=9, defs={"BOX_D": d, "GHOST_RANGE": "((ex_t)%d)" % (1 << (u.defs["T_W"] + 1))}, split_post=True,
+                      stubs=["c12_ghost.c", "c17_ghost.c", "c03_box.c"], group="box value %s %s" % (tt, pol))
+            pre = c03.BOX_SETUP + "\n  G_ys0[0] = G_ys[0]; G_ys0[1] = G_ys[1]; G_fy0v = fy;"
+            T.append(Task("box/%s/%s/copy_ctor/dim%d" % (tt, pol, d), u, "FN_b_copy", ["C13/box_value.h"], c03.box_vars() + [Var("uint32_t", "cc")], "FN_b_copy(&G_bz, &G_by, cc)", harness_pre=pre, **kw))
+            T.append(Task("box/%s/%s/assign/dim%d" % (tt, pol, d), u, "FN_b_assign", ["C13/box_value.h"], c03.box_vars(), "BOX_T *rr = FN_b_assign(&G_bx, &G_by)", harness_pre=pre, **kw))
+            T.append(Task("box/%s/%s/m_swap/dim%d" % (tt, pol, d), u, "FN_b_swap", ["C13/box_value.h"], c03.box_vars(), "FN_b_swap(&G_bx, &G_by)", harness_pre=pre, **kw))
+            if d == 0: continue
+            apre = c03.BOX_SETUP + "\n  G_satY0 = G_satX0; G_emptyY0 = G_emptyX0;"
+            akw = dict(kw); akw["defs"] = dict(kw["defs"], BOX_ALIAS=1)
+            for op in c03.BOX_OPS2:
+                call = ("FN_b_%s(&G_bx, &G_bx)" if op in c03.BOX_VOID else "_Bool r = FN_b_%s(&G_bx, &G_bx)") % op
+                T.append(Task("box-alias/%s/%s/%s/dim%d" % (tt, pol, op, d), u, "FN_b_" + op, ["C03/box.h"], c03.box_vars(), call, harness_pre=apre,
+                              reach=[("point inside", "G_satX0")], **akw))
+    return T
+
 def build(tier):
     u = det_unit(); units = [u]
-    tasks = det_tasks(u) + alias_tasks(units, tier) + itv_alias_tasks(units, tier)
+    tasks = det_tasks(u) + alias_tasks(units, tier) + itv_alias_tasks(units, tier) + box_value_tasks(units, tier)
     return units, tasks
 
 def main(tier, only=None):
     units, tasks = build(tier)
     if only: tasks = [t for t in tasks if only in t.id]; units = [u for u in units if any(t.unit is u for t in tasks)]
     return run_check("C13", tier, tasks, units, "proof",
-                     trusted_base=["clang 14 front end + LLVM mem2reg", "tools/ll2c.py (IR -> C)", "CBMC 6.11 / cadical", "stubs/common.c", "stubs/c13_new.c",
+                     trusted_base=["clang 14 front end + LLVM mem2reg", "tools/ll2c.py (IR -> C)", "CBMC 6.11 / cadical", "stubs/common.c", "stubs/c13_new.c", "stubs/c03_box.c (operator new = malloc, never fails)",
                                    "units/C13/determinate.cc: VSet, a minimal PSET carrying a value identifier (assumed contract of the base domains)"],
                      extra_assumptions=["A7: 'references == number of owners' across whole histories is the inductive use of the per-operation contracts; stated, not machine-checked",
                                         "deep copies of polyhedra, grids, systems, expressions and the recycling entry points (GMP / container code) are NOT covered"],
